@@ -37,6 +37,12 @@ def md_edge_values(rng, n_random=150):
         ['tuple', [['int', -(2 ** 63) - 1025], ['complex', (1.0).hex(), (0.0).hex()]]], ['list', [['int', 2 ** 63 + 2 ** 10], f(0.25)]], ['tuple', [['int', 2 ** 63 + 5], ['int', 1]]], ['list', [['int', 2 ** 63], ['int', 2 ** 63 + 5]]],
         ['tuple', [['str', 'a\x00']]], ['list', [['bytes', 'b']]], ['tuple', [['tuple', []], ['tuple', []]]], ['tuple', [['tuple', [['np', 'float32', f(2.5)]]]]],
     ]
+    # long sequences stored one dataset per member (member names '0'..'9','10',..): whatever is accepted comes back in order
+    for L in (11, 13, 25):
+        base.append(['list', [['str', 'member %02d' % i] for i in range(L)]])
+        base.append(['tuple', [['arr', 'int64', [i % 3 + 1], i] for i in range(L)]])
+        base.append(['tuple', [['tuple', [['int', i], ['int', -i]]] for i in range(L)]])
+        base.append(['list', [['np', 'float32', f(i + 0.5)] for i in range(L)]])
     out = []
     for v in base:
         out.append(v)
@@ -126,7 +132,7 @@ def run_one(args):
     import emdfile
     try:
         if c['stream'] == 'm':
-            return M.run_value(c['v'], scratch, c['where'])
+            return M.run_value(c['v'], scratch, c['where'], c.get('alias', False))
         if c['stream'] == 'n':
             nm, pos = c['name'], c['pos']
             def build():
